@@ -17,10 +17,15 @@ RULES = {
     "overwritten tensor is dominated by os.replace and is not in a handler or finally; release() may precede",
     "R3": "cleanup: removal of the temp file and temp directory is in the finally of the try that contains the write "
     "and the replace; nothing between mkdtemp and that try can raise OSError uncaught",
-    "R4": "the sharded path never overwrites: _check_no_existing_shard_files(all destinations) dominates every shard write",
+    "R4": "the sharded path never overwrites: _check_no_existing_shard_files(all destinations) dominates every shard write"
+    " ; only a branch whose test implies that no shard limit was given may take the replacing single-file path",
     "R5": "small external tensors are copied to memory before any data file is rewritten",
+    "R6": "a memo key determines the memoised answer (shared rule S6): in the external-data module, a cache of the form "
+    "`if K not in M: M[K] = E` keys on everything loop-varying that E reads - the answer to 'is this tensor backed by the "
+    "file being replaced' depends on the tensor's full path, not on its relative location alone, so tensors are "
+    "invalidated exactly when their own file was replaced",
 }
-FLOORS = {"R1": 5, "R2": 2, "R3": 4, "R4": 3, "R5": 1}
+FLOORS = {"R1": 5, "R2": 2, "R3": 4, "R4": 3, "R5": 1, "R6": 1}
 EXPLANATION = (
     "Path-taint analysis (temp-derived vs destination-derived) over every file-system call of the single-file "
     "writer, dominator queries for the write → replace → invalidate ordering, try/finally structure of the "
@@ -357,7 +362,44 @@ def rule_r5(ctx, rule="R5"):
               how="dominator query")
 
 
+_S6_EXAMPLE = """
+def f(tensors, dest):
+    seen = {}
+    for t in tensors:
+        k = t.location
+        if k not in seen:
+            seen[k] = same(t.path, dest)
+"""
+
+
+def rule_r6(ctx):
+    from ..index import FuncInfo as _FI, set_parents
+    from ..shared import memo_key_gaps
+
+    # expected number of memo sites on a correct tree is zero: exercise the detector on a built-in example
+    ex = ast.parse(_S6_EXAMPLE)
+    set_parents(ex)
+
+    class _Stub:
+        node = ex.body[0]
+
+    got = memo_key_gaps(_Stub)
+    ctx.require(len(got) == 1 and got[0][2] == ["t.path"], "S6 detector does not recognise its built-in positive example")
+    ctx.ob("R6", "built-in positive example: memo keyed by t.location caching a function of t.path is detected", True, how="detector self-check")
+    for f in ctx.repo.module(ED).all_funcs:
+        if isinstance(f.node, ast.Lambda):
+            continue
+        for memo, st, missing in memo_key_gaps(f):
+            ctx.check("R6", f"{f.local}: memo `{memo}` is keyed by everything its value depends on", not missing, f, st,
+                      f"`{norm(st)}` caches an answer that depends on {missing} under a key that does not: two tensors with the same key but a "
+                      "different path share one answer, so a tensor is invalidated although its own file was not replaced (or kept valid "
+                      "although it was)",
+                      how="attribute chains of the loop variables read by the memoised expression ⊆ those read by the key",
+                      construct=f"memo {memo} key misses {missing}")
+
+
 def run(ctx):
+    rule_r6(ctx)
     rule_r1_r2_r3(ctx)
     rule_r4(ctx)
     rule_r5(ctx)
